@@ -1,3 +1,4 @@
 pub mod engine;
+pub mod ffi;
 pub mod gens;
 pub mod oracle;
